@@ -1,9 +1,535 @@
-/- C07 - model (stub: not built yet) -/
+/-
+C07 - model of the sign / verify round trip.
+
+Signing side (notation.go `SignOCI` / `SignBlob`, `validateSignArguments`,
+`addUserMetadataToDescriptor`, `getDescriptorFunc`; signer/signer.go `GenericSigner.Sign` /
+`SignBlob` / `getDescriptor`; signer/plugin.go `PluginSigner.Sign` / `SignBlob` /
+`generateSignature` / `generateSignatureEnvelope` / `pluginPrimitiveSigner.Sign`;
+internal/envelope `SanitizeTargetArtifact`), composed with the verifying side
+(verifier/verifier.go `Verify` / `VerifyBlob`, notation.go `VerifyBlob` / `Verify` /
+`VerificationOutcome.UserMetadata`).
+
+All algorithm / codec tables, the fields kept by the sanitiser, the reserved prefixes and the
+guards of `validateSignArguments` are the regenerated facts of `Generated/C07.lean`.
+Cryptography is a hypothesis structure (`Crypto`): the only thing the model knows about it
+is `verify (pub k) m (sign k m) = true`. The executable `run` instantiates it with a toy
+scheme. Maps (`map[string]string`) are association lists: the value of the map at `k` is
+`kvLookup k` (first match); what is observed is kept sorted by key.
+-/
 import NotationModel.Basic
+import NotationModel.Generated.C07
 open Lean
 
 namespace NotationModel.C07
+open NotationModel.Facts
 
-def judge (_ : Json) : Except String Json := .error "C07: model not built yet"
+/-! ### vocabulary -/
+
+inductive Kind | oci | blob
+  deriving DecidableEq, Repr, FromJson, ToJson
+
+inductive KeySpec | rsa2048 | rsa3072 | rsa4096 | ec256 | ec384 | ec521
+  deriving DecidableEq, Repr, FromJson, ToJson
+
+inductive Format | jws | cose
+  deriving DecidableEq, Repr, FromJson, ToJson
+
+/-- which implementation of notation.Signer / notation.BlobSigner signs -/
+inductive SignerKind
+  | localKey          -- signer.NewGenericSigner(key, chain)
+  | localFiles        -- signer.NewFromFiles(keyPath, chainPath)
+  | pluginSignature   -- PluginSigner over a plugin with the raw signature-generator capability
+  | pluginEnvelope    -- PluginSigner over a plugin with the envelope-generator capability
+  deriving DecidableEq, Repr, FromJson, ToJson
+
+/-- content media type stated by the caller of notation.VerifyBlob -/
+inductive VerifyMT | same | unstated | other
+  deriving DecidableEq, Repr, FromJson, ToJson
+
+/-- user metadata the caller of the verification API requires -/
+inductive VerifyMD | nothing | all | wrong
+  deriving DecidableEq, Repr, FromJson, ToJson
+
+structure KV where
+  k : String
+  v : String
+  deriving DecidableEq, Repr, FromJson, ToJson
+
+/-- a descriptor as the caller / the repository hands it over (ocispec.Descriptor) -/
+structure FullDesc where
+  mediaType : String
+  digest : String
+  size : Int
+  annotations : List KV
+  urls : List String
+  platform : Bool            -- a platform object is present
+  data : String              -- embedded data ("" = absent)
+  artifactType : String      -- "" = absent
+  deriving DecidableEq, Repr, FromJson, ToJson
+
+/-- a descriptor as it is observed in JSON: the four fields of the Notary payload plus the
+names of whatever else is present (sorted) -/
+structure DescObs where
+  mediaType : String
+  digest : String
+  size : Int
+  annotations : List KV      -- sorted by key
+  extraKeys : List String
+  deriving DecidableEq, Repr, FromJson, ToJson
+
+/-- a blob, abstractly: its size and its digest under each digest algorithm -/
+structure Blob where
+  size : Int
+  sha256 : String
+  sha384 : String
+  sha512 : String
+  deriving DecidableEq, Repr, FromJson, ToJson
+
+structure Input where
+  kind : Kind
+  keySpec : KeySpec
+  format : Format
+  signer : SignerKind
+  desc : FullDesc             -- oci: what Repository.Resolve returns (unused for blobs)
+  blob : Blob                 -- blob: the content (unused for oci)
+  contentMediaType : String   -- blob: SignBlobOptions.ContentMediaType
+  mediaTypeValid : Bool       -- blob: mime.ParseMediaType accepts it (std-lib oracle)
+  metadata : List KV          -- user metadata given to the signing API
+  durationNs : Int            -- SignerSignOptions.ExpiryDuration in nanoseconds
+  nowFracNs : Nat             -- sub-second part of the signing clock (unknown to the caller)
+  agent : String              -- SignerSignOptions.SigningAgent (unsigned attribute, not observed)
+  verifyMediaType : VerifyMT  -- blob: VerifyBlobOptions.ContentMediaType
+  verifyMetadata : VerifyMD   -- UserMetadata required at verification
+  lagSec : Nat                -- whole seconds from the (truncated) signing time to verification
+  exactIdentity : Bool        -- trusted identity is the exact subject (else the wildcard); both trust the signer
+  byTag : Bool                -- oci: SignOCI is given a tag reference (else a digest reference); both resolve to `desc`
+  deriving Repr, FromJson, ToJson
+
+structure Obs where
+  signed : Bool                       -- the signing API returned a signature
+  verified : Bool                     -- the verification API accepted it
+  payload : Option DescObs            -- signed payload as parsed from the envelope
+  expirySec : Option Int              -- expiry - signing time of the envelope, in seconds
+  returned : Option DescObs           -- descriptor returned by notation.VerifyBlob / notation.Verify
+  userMetadata : Option (List KV)     -- outcome.UserMetadata(), sorted by key
+  deriving DecidableEq, Repr, FromJson, ToJson
+
+/-! ### maps as association lists -/
+
+def kvLookup (k : String) : List KV → Option String
+  | [] => none
+  | x :: xs => if x.k = k then some x.v else kvLookup k xs
+
+def kvHas (k : String) (m : List KV) : Bool := (kvLookup k m).isSome
+
+/-- `m[k] = v` on the canonical (sorted) representation -/
+def kvInsert (k v : String) : List KV → List KV
+  | [] => [⟨k, v⟩]
+  | x :: xs =>
+    if k < x.k then ⟨k, v⟩ :: x :: xs
+    else if x.k = k then ⟨k, v⟩ :: xs
+    else x :: kvInsert k v xs
+
+/-- the map with all entries of `ms` written into `a` -/
+def mergeKV (a : List KV) (ms : List KV) : List KV := ms.foldl (fun acc m => kvInsert m.k m.v acc) a
+
+/-- `for k, v := range want { if got, ok := have[k]; !ok || got != v { fail } }` -/
+def kvSubset (want have_ : List KV) : Bool :=
+  want.all (fun x => kvLookup x.k have_ == kvLookup x.k want)
+
+/-! ### tables (regenerated facts) -/
+
+/-- the key spec as notation-core-go's `signature.KeySpec{Type, Size}` -/
+def KeySpec.core : KeySpec → String × Nat
+  | .rsa2048 => ("RSA", 2048) | .rsa3072 => ("RSA", 3072) | .rsa4096 => ("RSA", 4096)
+  | .ec256 => ("EC", 256) | .ec384 => ("EC", 384) | .ec521 => ("EC", 521)
+
+/-- the name by which an honest plugin describes its key (plugin contract / Notary spec) -/
+def KeySpec.protoName : KeySpec → String
+  | .rsa2048 => "RSA-2048" | .rsa3072 => "RSA-3072" | .rsa4096 => "RSA-4096"
+  | .ec256 => "EC-256" | .ec384 => "EC-384" | .ec521 => "EC-521"
+
+def KeySpec.all : List KeySpec := [.rsa2048, .rsa3072, .rsa4096, .ec256, .ec384, .ec521]
+
+/-- `KeySpec.SignatureAlgorithm()`; `none` is Go's zero Algorithm -/
+def coreSigAlg (ks : String × Nat) : Option String := c07CoreSigAlgOfKeySpec.lookup ks
+
+/-- `Algorithm.Hash()`; `none` is Go's zero crypto.Hash -/
+def coreHash (alg : String) : Option String := c07CoreHashOfSigAlg.lookup alg
+
+/-- signer/signer.go `getDescriptor`: `algorithms[ks.SignatureAlgorithm().Hash()]` -/
+def signerDigestAlg (ks : String × Nat) : Option String := do
+  let alg ← coreSigAlg ks
+  let h ← coreHash alg
+  c07SignerDigestOfHash.lookup h
+
+/-- verifier.VerifyBlob: `algorithms[SignerInfo.SignatureAlgorithm.Hash()]` -/
+def verifierDigestAlg (alg : String) : Option String := do
+  let h ← coreHash alg
+  c07VerifierDigestOfHash.lookup h
+
+/-- what an honest plugin understands by the hash algorithm names of the plugin contract -/
+def pluginHashMeaning : List (String × String) :=
+  [("SHA-256", "SHA256"), ("SHA-384", "SHA384"), ("SHA-512", "SHA512")]
+
+/-- digest of the blob under a digest algorithm (`digest.SHA256` ...) -/
+def Blob.digestUnder (b : Blob) : String → Option String
+  | "SHA256" => some b.sha256
+  | "SHA384" => some b.sha384
+  | "SHA512" => some b.sha512
+  | _ => none
+
+/-! ### cryptography as a hypothesis -/
+
+/-- the attributes an envelope protects -/
+structure Protected where
+  alg : String                -- signature algorithm of the protected header
+  payloadType : String
+  payload : DescObs           -- content of the payload `{"targetArtifact": …}`
+  signingTime : Int           -- seconds
+  expiry : Option Int         -- seconds
+  deriving DecidableEq, Repr
+
+/-- what the signature primitive is computed over, and with which hash -/
+structure ToSign where
+  hash : String
+  attrs : Protected
+  deriving DecidableEq, Repr
+
+structure Crypto where
+  Key : Type
+  Pub : Type
+  Sig : Type
+  pub : Key → Pub
+  sign : Key → ToSign → Sig
+  verify : Pub → ToSign → Sig → Bool
+  correct : ∀ k m, verify (pub k) m (sign k m) = true
+
+/-- toy instance: a signature is the pair (key, message) -/
+def toy : Crypto where
+  Key := Nat
+  Pub := Nat
+  Sig := Nat × ToSign
+  pub k := k
+  sign k m := (k, m)
+  verify p m s := s.1 == p && s.2 == m
+  correct := by intro k m; simp
+
+structure Envelope (C : Crypto) where
+  format : Format
+  attrs : Protected
+  agent : String              -- unsigned
+  signer : C.Pub              -- key of the signing certificate (the chain is abstracted)
+  sig : C.Sig
+
+def payloadTypeV1 : String := "application/vnd.cncf.notary.payload.v1+json"
+
+/-- notation-core-go `Envelope.Verify()`: the signature over the protected attributes
+checks under the certificate's key with the hash of the header's algorithm -/
+def Envelope.integrity {C : Crypto} (e : Envelope C) : Bool :=
+  match coreHash e.attrs.alg with
+  | some h => C.verify e.signer ⟨h, e.attrs⟩ e.sig
+  | none => false
+
+/-! ### signing -/
+
+def guardPresent (g : String) : Bool := c07SignArgumentGuards.contains g
+
+/-- notation.go `validateSignArguments` (the signature media type is one of the two formats) -/
+def signArgsOk (d : Int) : Bool :=
+  !(guardPresent "signOpts.ExpiryDuration<0" && decide (d < 0)) &&
+  !(guardPresent "signOpts.ExpiryDuration%time.Second!=0" && decide (d % 1000000000 ≠ 0))
+
+def reserved (k : String) : Bool := c07ReservedPrefixes.any (fun p => p.toList.isPrefixOf k.toList)
+
+/-- notation.go `addUserMetadataToDescriptor`: the loop over the metadata map -/
+def addUserMetadata (annots : List KV) : List KV → Option (List KV)
+  | [] => some annots
+  | m :: ms =>
+    if reserved m.k then none
+    else if kvHas m.k annots then none
+    else addUserMetadata (kvInsert m.k m.v annots) ms
+
+def keep (f : String) : Bool := c07SanitizeFields.contains f
+
+/-- the JSON view of a descriptor after copying the fields `fields` allows -/
+def project (keepField : String → Bool) (d : FullDesc) : DescObs :=
+  { mediaType := if keepField "MediaType" then d.mediaType else "",
+    digest := if keepField "Digest" then d.digest else "",
+    size := if keepField "Size" then d.size else 0,
+    annotations := if keepField "Annotations" then d.annotations else [],
+    extraKeys :=
+      (if keepField "ArtifactType" && d.artifactType != "" then ["artifactType"] else []) ++
+      (if keepField "Data" && d.data != "" then ["data"] else []) ++
+      (if keepField "Platform" && d.platform then ["platform"] else []) ++
+      (if keepField "URLs" && !d.urls.isEmpty then ["urls"] else []) }
+
+/-- the whole descriptor as JSON -/
+def fullObs (d : FullDesc) : DescObs := project (fun _ => true) d
+
+/-- `envelope.Payload{TargetArtifact: envelope.SanitizeTargetArtifact(desc)}` -/
+def payloadOf (sanitizes : Bool) (d : FullDesc) : DescObs :=
+  if sanitizes then project keep d else fullObs d
+
+/-- the key spec the signing path works with: from the certificate (local signers,
+notation-core-go `ExtractKeySpec`, assumed exact) or from the plugin's describe-key answer -/
+def signerKeySpec (s : SignerKind) (k : KeySpec) : Option (String × Nat) :=
+  match s with
+  | .localKey | .localFiles => some k.core
+  | .pluginSignature | .pluginEnvelope => c07ProtoDecodeKeySpec.lookup k.protoName
+
+/-- the hash the signature primitive is computed with -/
+def primitiveHash (s : SignerKind) (k : KeySpec) (ks : String × Nat) : Option String :=
+  match s with
+  | .pluginSignature => do
+    -- pluginPrimitiveSigner.Sign: EncodeKeySpec and HashAlgorithmFromKeySpec must succeed;
+    -- the plugin hashes with what the request names
+    let _ ← c07ProtoEncodeKeySpec.lookup ks
+    let name ← c07ProtoHashOfKeySpec.lookup ks
+    pluginHashMeaning.lookup name
+  | _ => do
+    -- notation-core-go signs with the hash of the key's own algorithm
+    let alg ← coreSigAlg k.core
+    coreHash alg
+
+/-- the algorithm written into the protected header -/
+def headerAlg (s : SignerKind) (k : KeySpec) (ks : String × Nat) : Option String :=
+  match s with
+  | .pluginSignature => coreSigAlg ks        -- from pluginPrimitiveSigner.KeySpec()
+  | _ => coreSigAlg k.core                   -- from the signing certificate
+
+/-- signer/plugin.go `isPayloadDescriptorValid` on the envelope a plugin returned -/
+def payloadDescriptorValid (orig : FullDesc) (signed : DescObs) : Bool :=
+  orig.mediaType == signed.mediaType && orig.digest == signed.digest && orig.size == signed.size &&
+  kvSubset orig.annotations signed.annotations
+
+/-- the protected attributes of the envelope: signature/internal/base truncates signing time
+and expiry to seconds; the envelope plugin receives whole seconds
+(`uint64(opts.ExpiryDuration / time.Second)`) and adds them to its own clock -/
+def protectedAttrs (alg : String) (payload : DescObs) (envelopePlugin : Bool) (durationNs nowNs : Int) : Protected :=
+  let dur : Int := if envelopePlugin then (durationNs / 1000000000) * 1000000000 else durationNs
+  { alg := alg, payloadType := payloadTypeV1, payload := payload,
+    signingTime := nowNs / 1000000000,
+    expiry := if dur ≠ 0 then some ((nowNs + dur) / 1000000000) else none }
+
+/-- `Signer.Sign(ctx, desc, opts)` for the four signers. `nowNs` is the signing clock. -/
+def signDesc (C : Crypto) (key : C.Key) (i : Input) (ks : String × Nat) (nowNs : Int) (d : FullDesc) :
+    Option (Envelope C) :=
+  let envelopePlugin := i.signer == .pluginEnvelope
+  let payload := payloadOf (if envelopePlugin then c07EnvelopePluginSanitizes else c07GenericSignSanitizes) d
+  match headerAlg i.signer i.keySpec ks, primitiveHash i.signer i.keySpec ks with
+  | some alg, some h =>
+    let attrs := protectedAttrs alg payload envelopePlugin i.durationNs nowNs
+    let e : Envelope C :=
+      { format := i.format, attrs := attrs, agent := i.agent, signer := C.pub key, sig := C.sign key ⟨h, attrs⟩ }
+    -- the generated signature is verified before it is returned
+    if !e.integrity then none
+    else if e.attrs.payloadType != payloadTypeV1 then none
+    else if envelopePlugin && !payloadDescriptorValid d e.attrs.payload then none
+    else some e
+  | _, _ => none
+
+/-- the key spec notation.SignOCI's signer asks for: only the raw-signature plugin path
+describes the key before signing a descriptor -/
+def ociKeySpec (s : SignerKind) (k : KeySpec) : Option (String × Nat) :=
+  match s with
+  | .pluginSignature => signerKeySpec s k
+  | _ => some k.core
+
+/-- the descriptor `getDescriptorFunc` generates for a blob under a digest algorithm -/
+def blobDescriptor (i : Input) (dg : String) (annots : List KV) : FullDesc :=
+  { mediaType := i.contentMediaType, digest := dg, size := i.blob.size, annotations := annots,
+    urls := [], platform := false, data := "", artifactType := "" }
+
+/-- notation.SignOCI / notation.SignBlob -/
+def signModel (C : Crypto) (key : C.Key) (i : Input) (nowNs : Int) : Option (Envelope C) :=
+  if !signArgsOk i.durationNs then none
+  else match i.kind with
+    | .oci =>
+      match ociKeySpec i.signer i.keySpec with
+      | none => none
+      | some ks =>
+        match addUserMetadata i.desc.annotations i.metadata with
+        | none => none
+        | some annots => signDesc C key i ks nowNs { i.desc with annotations := annots }
+    | .blob =>
+      if i.contentMediaType == "" then none
+      else if !i.mediaTypeValid then none
+      else
+        match signerKeySpec i.signer i.keySpec with
+        | none => none
+        | some ks =>
+          match signerDigestAlg ks with
+          | none => none
+          | some da =>
+            match i.blob.digestUnder da with
+            | none => none
+            | some dg =>
+              match addUserMetadata [] i.metadata with
+              | none => none
+              | some annots => signDesc C key i ks nowNs (blobDescriptor i dg annots)
+
+/-! ### verifying -/
+
+/-- verifier.processSignature under a strict policy that trusts the signer's chain and
+identity (`trust`), revocation skipped, no timestamp: integrity, payload type, authenticity,
+expiry (`!time.Now().Before(expiry)` fails) -/
+def processSignature {C : Crypto} (trust : C.Pub → Bool) (nowSec : Int) (e : Envelope C) : Bool :=
+  e.integrity && e.attrs.payloadType == payloadTypeV1 && trust e.signer &&
+  (match e.attrs.expiry with
+   | some x => decide (nowSec < x)
+   | none => true)
+
+/-- the metadata the caller of the verification API requires -/
+def wantedMetadata (i : Input) : List KV :=
+  match i.verifyMetadata with
+  | .nothing => []
+  | .all => i.metadata
+  | .wrong => i.metadata ++ [⟨"c07.not.signed", "x"⟩]
+
+/-- verifier.Verify after processSignature: `content.Equal(payload.TargetArtifact, desc)`
+and `verifyUserMetadata` -/
+def verifyOCI {C : Crypto} (trust : C.Pub → Bool) (nowSec : Int) (resolved : FullDesc) (want : List KV)
+    (e : Envelope C) : Bool :=
+  processSignature trust nowSec e &&
+  (e.attrs.payload.mediaType == resolved.mediaType && e.attrs.payload.digest == resolved.digest &&
+    e.attrs.payload.size == resolved.size) &&
+  kvSubset want e.attrs.payload.annotations
+
+/-- the media type notation.VerifyBlob is called with -/
+def statedMediaType (i : Input) : String :=
+  match i.verifyMediaType with
+  | .same => i.contentMediaType
+  | .unstated => ""
+  | .other => "application/x-c07-other"
+
+def zeroDesc : DescObs := { mediaType := "", digest := "", size := 0, annotations := [], extraKeys := [] }
+
+/-- verifier.VerifyBlob + notation.VerifyBlob: the returned descriptor on success -/
+def verifyBlob {C : Crypto} (trust : C.Pub → Bool) (nowSec : Int) (blob : Blob) (stated : String)
+    (want : List KV) (e : Envelope C) : Option DescObs :=
+  if !processSignature trust nowSec e then none
+  else
+    let p := e.attrs.payload
+    match verifierDigestAlg e.attrs.alg with
+    | none => none
+    | some da =>
+      match blob.digestUnder da with
+      | none => none
+      | some dg =>
+        -- getDescriptorFunc adds the required metadata to the generated descriptor
+        match addUserMetadata [] want with
+        | none => none
+        | some _ =>
+          if dg != p.digest || blob.size != p.size || (stated != "" && stated != p.mediaType) then none
+          else if !kvSubset want p.annotations then none
+          else if c07VerifyBlobReturns == "payload.TargetArtifact" then some p
+          else some zeroDesc
+
+/-- VerificationOutcome.UserMetadata() -/
+def userMetadataOf (p : DescObs) : List KV :=
+  if c07UserMetadataReturns == "payload.TargetArtifact.Annotations" then p.annotations else []
+
+def noSignature : Obs :=
+  { signed := false, verified := false, payload := none, expirySec := none, returned := none, userMetadata := none }
+
+/-- sign, then verify `lagSec` seconds after the signing time -/
+def runWith (C : Crypto) (key : C.Key) (trust : C.Pub → Bool) (nowNs : Int) (i : Input) : Obs :=
+  match signModel C key i nowNs with
+  | none => noSignature
+  | some e =>
+    let nowSec := e.attrs.signingTime + i.lagSec
+    let exp := e.attrs.expiry.map (· - e.attrs.signingTime)
+    match i.kind with
+    | .oci =>
+      let ok := verifyOCI trust nowSec i.desc (wantedMetadata i) e
+      { signed := true, verified := ok, payload := some e.attrs.payload, expirySec := exp,
+        returned := if ok then some (fullObs i.desc) else none,
+        userMetadata := if ok then some (userMetadataOf e.attrs.payload) else none }
+    | .blob =>
+      match verifyBlob trust nowSec i.blob (statedMediaType i) (wantedMetadata i) e with
+      | some r =>
+        { signed := true, verified := true, payload := some e.attrs.payload, expirySec := exp,
+          returned := some r, userMetadata := some (userMetadataOf e.attrs.payload) }
+      | none =>
+        { signed := true, verified := false, payload := some e.attrs.payload, expirySec := exp,
+          returned := none, userMetadata := none }
+
+/-- the toy key of a key spec, and the policy that trusts exactly its public key -/
+def toyKey : KeySpec → Nat
+  | .rsa2048 => 1 | .rsa3072 => 2 | .rsa4096 => 3 | .ec256 => 4 | .ec384 => 5 | .ec521 => 6
+
+def toyTrust (k : KeySpec) : toy.Pub → Bool := fun p => (show Nat from p) == toyKey k
+
+def run (i : Input) : Obs :=
+  runWith toy (toyKey i.keySpec) (toyTrust i.keySpec) (Int.ofNat (i.nowFracNs % 1000000000)) i
+
+/-! ### specification -/
+
+/-- the hash bound to a key (Notary signature specification, algorithm selection) -/
+def specDigestAlg : KeySpec → String
+  | .rsa2048 | .ec256 => "SHA256"
+  | .rsa3072 | .ec384 => "SHA384"
+  | .rsa4096 | .ec521 => "SHA512"
+
+def Blob.specDigest (b : Blob) (k : KeySpec) : String :=
+  match k with
+  | .rsa2048 | .ec256 => b.sha256
+  | .rsa3072 | .ec384 => b.sha384
+  | .rsa4096 | .ec521 => b.sha512
+
+def specReserved (k : String) : Bool := "io.cncf.notary".toList.isPrefixOf k.toList
+
+/-- user metadata is legal for a map of annotations: no reserved prefix, no key already
+present, no key twice -/
+def legalMetadata (annots : List KV) : List KV → Bool
+  | [] => true
+  | m :: ms => !specReserved m.k && !kvHas m.k annots && !ms.any (fun x => x.k == m.k) && legalMetadata annots ms
+
+/-- the arguments of the signing API are legal -/
+def legal (i : Input) : Bool :=
+  decide (0 ≤ i.durationNs) && decide (i.durationNs % 1000000000 = 0) &&
+  (match i.kind with
+   | .oci => legalMetadata i.desc.annotations i.metadata
+   | .blob => i.contentMediaType != "" && i.mediaTypeValid && legalMetadata [] i.metadata)
+
+/-- the descriptor reduced to media type, digest, size and annotations, user metadata included -/
+def expectedPayload (i : Input) : DescObs :=
+  match i.kind with
+  | .oci =>
+    { mediaType := i.desc.mediaType, digest := i.desc.digest, size := i.desc.size,
+      annotations := mergeKV i.desc.annotations i.metadata, extraKeys := [] }
+  | .blob =>
+    { mediaType := i.contentMediaType, digest := i.blob.specDigest i.keySpec, size := i.blob.size,
+      annotations := mergeKV [] i.metadata, extraKeys := [] }
+
+/-- the verification call asks for what was signed -/
+def consistentVerify (i : Input) : Bool :=
+  i.verifyMetadata != .wrong && (i.kind == .oci || i.verifyMediaType != .other)
+
+/-- the signature has expired when it is verified -/
+def expiredAtVerify (i : Input) : Bool :=
+  decide (i.durationNs ≠ 0) && decide (i.durationNs / 1000000000 ≤ i.lagSec)
+
+def clauses (i : Input) (o : Obs) : Clauses :=
+  [ ("signs_iff_arguments_legal", o.signed == legal i),
+    ("signed_then_verifies", !(o.signed && consistentVerify i && !expiredAtVerify i) || o.verified),
+    ("verified_only_if_signed", !o.verified || o.signed),
+    ("payload_is_sanitised_descriptor_with_metadata",
+      o.payload == if o.signed then some (expectedPayload i) else none),
+    ("blob_digest_uses_hash_bound_to_key",
+      !(o.signed && i.kind == .blob) || (o.payload.map (·.digest)) == some (i.blob.specDigest i.keySpec)),
+    ("expiry_is_signing_time_plus_duration",
+      o.expirySec == if o.signed && i.durationNs != 0 then some (i.durationNs / 1000000000) else none),
+    ("returns_verified_descriptor",
+      o.returned == if o.verified then
+          some (match i.kind with | .blob => expectedPayload i | .oci => fullObs i.desc)
+        else none),
+    ("metadata_read_back",
+      o.userMetadata == if o.verified then some (expectedPayload i).annotations else none) ]
+
+def Holds (i : Input) (o : Obs) : Bool := (clauses i o).holds
+
+def judge := judgeWith run clauses
 
 end NotationModel.C07
